@@ -207,7 +207,53 @@ fn run_dict_edge(rep: &mut Report, rng: &mut Rng, thorough: bool) {
     }
 }
 
+/// raw LZMA1 with dictionary sizes that are not multiples of 16 (no container rounds them) and data longer than
+/// the dictionary, both directions: the decoder's position contexts must follow the stream position, not the
+/// write index of its cyclic buffer
+fn run_raw_odd_dict(rep: &mut Report, rng: &mut Rng, thorough: bool) {
+    let cases: &[(u32, u32, u32, u32)] = &[(5001, 3, 0, 2), (4097, 0, 2, 2), (5000, 3, 0, 4), (5000, 0, 4, 0), (4104, 0, 4, 4), (70001, 3, 0, 2), (6007, 1, 3, 3)];
+    for (k, &(dict, lc, lp, pb)) in cases.iter().enumerate() {
+        if !thorough && k >= 5 {
+            break;
+        }
+        let mut r = rng.fork();
+        let kind = *r.pick(&["text", "mixed", "code"]);
+        let len = dict as usize * 2 + r.range(500, 9000) as usize;
+        let data = gen_data(&mut r, kind, len);
+        let detail = |dir: &str| json!({"direction": dir, "stratum": "raw-odd-dict", "dict": dict, "lc": lc, "lp": lp, "pb": pb, "data_kind": kind, "data_len": data.len(), "data_fnv": fnv(&data)});
+        rep.count("stratum.raw-odd-dict");
+        // liblzma -> ours
+        match lref::lzma1_raw_encode(&data, dict, lc, lp, pb) {
+            Ok(c) => {
+                let lz = LzOpts { dict, lc, lp, pb, normal: false, nice: 32, bt4: false, depth: 0, preset: None };
+                for sched in [vec![65536usize], vec![1, 7, 4096]] {
+                    match lzma_decompress(&c, &lz, LzmaFmt::RawMarker, u64::MAX, &sched, data.len() + 16) {
+                        Outcome::Ok((out, _)) if out == data => {}
+                        Outcome::Ok(_) => rep.fail("ours-rejects-ref:raw-lzma1-different-data", "our LZMAReader decodes liblzma's raw LZMA1 stream to different data", detail("liblzma->ours")),
+                        other => rep.fail("ours-rejects-ref:raw-lzma1", &format!("our LZMAReader fails on liblzma's raw LZMA1 stream (dict {dict}): {}", other.describe()), detail("liblzma->ours")),
+                    }
+                }
+            }
+            Err(e) => rep.fail("ref-encoder-failed", &e, detail("liblzma->ours")),
+        }
+        // ours -> liblzma
+        for (normal, bt4) in [(false, false), (true, true)] {
+            let lz = LzOpts { dict, lc, lp, pb, normal, nice: 64, bt4, depth: 0, preset: None };
+            match lzma_compress(&data, &lz, LzmaFmt::RawMarker, &[data.len()]) {
+                Outcome::Ok(c) => match lref::lzma1_raw_decode(&c, dict, lc, lp, pb, data.len() + 64) {
+                    Ok(out) if out == data => {}
+                    Ok(_) => rep.fail("ref-lzma1-different-data", "liblzma decodes our raw LZMA1 stream to different data", detail("ours->liblzma")),
+                    Err(e) => rep.fail("ref-lzma1-rejects", &format!("liblzma rejects our raw LZMA1 stream (dict {dict}): {e}"), detail("ours->liblzma")),
+                },
+                other => rep.fail(&format!("lzma-write-{}", other.class()), &other.describe(), detail("ours->liblzma")),
+            }
+        }
+        rep.case(format!("raw-odd-dict:{dict}:{lc}:{lp}:{pb}"), true, || detail("both"));
+    }
+}
+
 pub fn run(rep: &mut Report, rng: &mut Rng, thorough: bool) {
+    run_raw_odd_dict(rep, &mut rng.fork(), thorough);
     run_dict_edge(rep, rng, thorough);
     run_state_resets(rep, rng, thorough);
     run_max_chunk(rep, rng);
